@@ -526,6 +526,60 @@ func runC19(c *fw.Ctx) {
 				holderL.UnsetTF("#1.written")
 				same("List.Get after UnsetTF through it", holderL.Get(1))
 			}
+			// the holders are changed in ways that leave the slot of the derived value alone (other keys / other
+			// positions, one pair and several pairs per call, padding, removal of neighbours): it stays the identical
+			// outer value
+			{
+				ho := at.NewObject("a", 1, "d", fx.outer, "z", at.NewList(1))
+				steps := []struct {
+					name string
+					f    func()
+				}{
+					{"Set(one other pair)", func() { ho.Set("n1", 1) }},
+					{"Set(two other pairs)", func() { ho.Set("n2", 2, "n3", at.NewList()) }},
+					{"Set(three pairs, one overwriting a neighbour)", func() { ho.Set("a", "x", "n4", nil, "n5", 2.5) }},
+					{"Set(native map value)", func() { ho.Set("n6", map[string]any{"q": 1}) }},
+					{"Unset(neighbours)", func() { ho.Unset("n1", "n2") }},
+					{"Unset(absent key)", func() { ho.Unset("absent") }},
+					{"SetTF(other path)", func() { ho.SetTF(".z#3", 1) }},
+					{"UnsetTF(other path)", func() { ho.UnsetTF(".z#0") }},
+					{"Pluck result", func() { ho = ho.Pluck("d", "a").Set("after", 2, "again", 3) }},
+				}
+				for _, st := range steps {
+					if pan, msg := drive.Protect(st.f); pan {
+						c.Violate("holder-mutation-panics", in()+" / "+st.name, "no panic", msg)
+						break
+					}
+					same("Object.Get after "+st.name, ho.Get("d"))
+					same("Object.GetTF after "+st.name, ho.GetTF(".d"))
+				}
+				hl := at.NewList(0, fx.outer, "s")
+				pos := 1
+				lsteps := []struct {
+					name string
+					f    func()
+				}{
+					{"Add(two)", func() { hl.Add(1, at.NewList()) }},
+					{"Insert(front)", func() { hl.Insert(0, "f"); pos++ }},
+					{"Insert(behind)", func() { hl.Insert(pos+1, "b") }},
+					{"Replace(neighbour)", func() { hl.Replace(pos-1, []any{1}) }},
+					{"Delete(neighbours)", func() { hl.Delete(pos+1, 0); pos-- }},
+					{"Pop", func() { hl.Pop() }},
+					{"SetTF(pad)", func() { hl.SetTF(fmt.Sprintf("#%d", hl.Count()+2), 1) }},
+					{"Reverse twice", func() { hl.Reverse().Reverse() }},
+					{"Concat result", func() { hl = hl.Concat(at.NewList(1)).Add(2) }},
+					{"SubList result", func() { hl = hl.SubList(0, 0).Add(3) }},
+					{"Filter result", func() { hl = hl.Filter(func(any) bool { return true }).Add(4) }},
+				}
+				for _, st := range lsteps {
+					if pan, msg := drive.Protect(st.f); pan {
+						c.Violate("holder-mutation-panics", in()+" / "+st.name, "no panic", msg)
+						break
+					}
+					same("List.Get after "+st.name, hl.Get(pos))
+					same("List.GetTF after "+st.name, hl.GetTF(fmt.Sprintf("#%d", pos)))
+				}
+			}
 			// reversing / moving the holder keeps the identity
 			same("after Reverse", holderL.Reverse().Get(1))
 			same("SubList", holderL.SubList(0, 0).Get(1))
